@@ -342,7 +342,10 @@ func (m *readerModel) ReadBinary(l int, junk byte) {
 	m.end(4, l, got == l)
 }
 
-func (m *readerModel) Release() {
+func (m *readerModel) Release() { m.ReleaseWith(nil) }
+
+// ReleaseWith calls Release(e): the argument must not change what the reader delivers.
+func (m *readerModel) ReleaseWith(e error) {
 	c := m.c
 	m.begin("Release", 0)
 	buffered := -1
@@ -354,7 +357,11 @@ func (m *readerModel) Release() {
 	m.verifyKept("before Release")
 	m.kept = m.kept[:0]
 	var err error
-	c.GuardNoOOM(m.site("Release"), func() { err = m.r.Release(nil) })
+	if e != nil {
+		c.Count("probe.release_with_error_argument")
+		c.Tracef("  (Release called with a non-nil error argument)")
+	}
+	c.GuardNoOOM(m.site("Release"), func() { err = m.r.Release(e) })
 	if err != nil {
 		c.Fail("RELEASE_ERROR", m.site("Release"), sim.F{}, "Release returned %v", err)
 	}
